@@ -566,7 +566,9 @@ theorem startAuthorKinds_frame4 (c : Core) (kind : Str) (a : List (Str × Str)) 
             · injection h with h; injection h with h1 _; rw [← h1]; exact Frame4.refl c
             · split at h
               · injection h with h; injection h with h1 _; rw [← h1]; exact pflag_frame4 c true
-              · cases h
+              · split at h
+                · injection h with h; injection h with h1 _; rw [← h1]; exact putContext_frame4 _ _
+                · cases h
 
 theorem savePart_frame4 (o : Ops) (c : Core) (k : Str) (v : Option Str) (b : Bool) : Frame4 c (savePart o c k v b) := by
   unfold savePart
@@ -615,7 +617,13 @@ theorem endAuthorKinds_ok (o : Ops) (s s1 : MSt) (kind : Str) (h : endAuthorKind
             · split at h
               · injection h with h; rw [← h]
                 exact ⟨(pop_frame4 o s _).trans ((pflag_frame4 _ false).trans (putContext_frame4 _ _)), pop_stack o s _⟩
-              · cases h
+              · split at h
+                · injection h with h; rw [← h]
+                  exact ⟨pop_frame4 o s _, pop_stack o s _⟩
+                · split at h
+                  · injection h with h; rw [← h]
+                    exact ⟨(pop_frame4 o s _).trans (putContext_frame4 _ _), pop_stack o s _⟩
+                  · cases h
 
 theorem startLG_frame4 (o : Ops) (c : Core) (kind : Str) (a : List (Str × Str)) (c' : Core) (es : List Elem)
     (h : startLG o c kind a = .ok (c', es)) : Frame4 c c' := by
@@ -641,11 +649,13 @@ theorem startLG_frame4 (o : Ops) (c : Core) (kind : Str) (a : List (Str × Str))
           simp only
           split <;> exact putContext_frame4 _ _
         · split at h
-          · rename_i r hr
-            injection h with h
-            rw [h] at hr
-            exact startAuthorKinds_frame4 c kind a c' es hr
-          · cases h
+          · injection h with h; injection h with h1 _; rw [← h1]; exact putContext_frame4 _ _
+          · split at h
+            · rename_i r hr
+              injection h with h
+              rw [h] at hr
+              exact startAuthorKinds_frame4 c kind a c' es hr
+            · cases h
 
 theorem popLink_frame4 (o : Ops) (s : MSt) :
     Frame4 s.c (popLink o s).c ∧ ((popLink o s).stack = s.stack ∨ ∃ top, s.stack = top :: (popLink o s).stack) := by
